@@ -84,6 +84,11 @@ Definition run_pw_integral (kint kevI : list expr) (segs : list (list Z)) (knot 
 Definition run_pw_indefinite (kint kindef kevI : list expr) (segs : list (list Z)) : list Z :=
   dump_segs (pw_indefinite (seg_integral_k kint) (seg_indef_k kindef) (seg_ev kevI) (mksegs segs)).
 
+(* T::integral(knot) (or indefinite when knot = []) followed by IntegralOf::evaluate at each t *)
+Definition run_integral_eval (kint kev : list expr) (cs knot ts : list Z) : list Z :=
+  let outs := kap kint (map of_bits (cs ++ knot)) in
+  map to_bits outs ++ map (fun t => to_bits (kap1 kev (outs ++ [of_bits t]))) ts.
+
 Definition run_linear (kincr : list expr) (knots : list (list Z)) : list Z :=
   let incr (p c : F * F) : fseg * (F * F) :=
     match kap kincr [fst p; snd p; fst c; snd c] with
